@@ -183,6 +183,49 @@ theorem streamOK_wm_bounds (lat : Int) (hlat : 0 ≤ lat) (s : List SEv) (m : In
       · cases e; omega
       · exact ih _ h.2 v e
 
+/-! ### several operators -/
+
+theorem sentTagged_erase (evs : List REvK) (w : Watermarker) :
+    (sentTagged w evs).map (·.2) = sentStream w (evs.map REvK.erase) := by
+  induction evs generalizing w with
+  | nil => rfl
+  | cons e es ih =>
+    cases e with
+    | events kts =>
+      simp only [sentTagged, List.map_cons, REvK.erase, sentStream, List.map_append, List.map_map, ih]
+      rfl
+    | tick => simp only [sentTagged, List.map_cons, REvK.erase, sentStream, ih]
+
+theorem streamOf_sublist (j : Nat) (s : List (Option Nat × SEv)) : (streamOf j s).Sublist (s.map (·.2)) := by
+  unfold streamOf
+  exact List.Sublist.map _ List.filter_sublist
+
+theorem watermarksOf_sublist {a b : List SEv} (h : a.Sublist b) : (watermarksOf a).Sublist (watermarksOf b) := by
+  induction h with
+  | slnil => exact List.Sublist.slnil
+  | cons x _ ih => cases x <;> simp only [watermarksOf] <;> first | exact ih | exact List.Sublist.cons _ ih
+  | cons_cons x _ ih => cases x <;> simp only [watermarksOf] <;> first | exact ih | exact List.Sublist.cons_cons _ ih
+
+/-- the watermarks of the stream handed to the operators are exactly the runner's broadcast watermarks -/
+theorem watermarksOf_sentStream (evs : List REv) (w : Watermarker) : watermarksOf (sentStream w evs) = runnerRun w evs := by
+  induction evs generalizing w with
+  | nil => rfl
+  | cons e es ih =>
+    cases e with
+    | events ts =>
+      simp only [sentStream, runnerRun, runnerStep]
+      have : ∀ (l : List Int) (s : List SEv), watermarksOf (l.map SEv.ev ++ s) = watermarksOf s := by
+        intro l s; induction l with
+        | nil => rfl
+        | cons x xs ihx => simpa [watermarksOf] using ihx
+      rw [this, ih]
+    | tick => simp only [sentStream, runnerRun, runnerStep, watermarksOf, ih]
+
+/-- every watermark of a stream is the largest event timestamp of the WHOLE stream before it minus (lateness + 1) -/
+theorem streamOK_all_prefixes (w : Watermarker) (evs : List REv) (k : Nat) :
+    streamOK w.lateness w.maxTs ((sentStream w evs).take k) :=
+  streamOK_take _ k _ _ (sentStream_ok evs w)
+
 /-! ### upstream map -/
 
 def Ups.wf (u : Ups) : Prop := (u.map (·.1)).Nodup
